@@ -455,8 +455,16 @@ pub fn render_float(
 	// don't have trouble with the rounding direction.
 	let denominator = 10.0f64.powi(i32::from(precision));
 	let numerator = n.abs().mul_add(denominator, 0.5);
-	let whole = (numerator / denominator).floor();
-	let frac = numerator.floor() % denominator;
+	// From 2^53 on every double is an integer: there is no fraction to round, and
+	// scaling would only lose digits.
+	let (whole, frac) = if n.abs() >= 9_007_199_254_740_992.0 {
+		(n.abs(), 0.0)
+	} else {
+		(
+			(numerator / denominator).floor(),
+			numerator.floor() % denominator,
+		)
+	};
 
 	#[allow(clippy::bool_to_int_with_if)]
 	let dot_size = if precision == 0 && !ensure_pt { 0 } else { 1 };
